@@ -378,9 +378,26 @@ def _starred_tests(fn: FuncInfo, g: CFG) -> Set[Node]:
     out: Set[Node] = set()
     if va is None:
         return out
+    def _inspects(e: ast.AST) -> bool:
+        return any(
+            isinstance(c, ast.Compare) and isinstance(c.left, ast.Call) and isinstance(c.left.func, ast.Name) and c.left.func.id == "len"
+            and c.left.args and isinstance(c.left.args[0], ast.Name) and c.left.args[0].id == va
+            for c in ast.walk(e)
+        )
+
+    # a boolean local that names the same test:  popped_last = len(args) == 0 or args == [-1]
+    flags = set()
+    for st in walk_local(fn.node):
+        if isinstance(st, ast.Assign) and len(st.targets) == 1 and isinstance(st.targets[0], ast.Name) and _inspects(st.value):
+            name = st.targets[0].id
+            if sum(1 for x in walk_local(fn.node) if isinstance(x, ast.Assign) and any(isinstance(t, ast.Name) and t.id == name for t in x.targets)) == 1:
+                flags.add(name)
     for n in g.nodes:
         if n.kind == "test" and n.ast is not None:
             names = {x.id for x in ast.walk(n.ast) if isinstance(x, ast.Name)}
+            if names & flags and names <= flags:
+                out.add(n)
+                continue
             if va in names and any(
                 isinstance(c, ast.Compare)
                 and isinstance(c.left, ast.Call)
